@@ -784,10 +784,10 @@ fn configs(tier: Tier) -> Vec<(Cfg, usize, Option<u32>)> {
         for p in (1..=3).rev() {
             both(&mut v, 4, p, false, &[MIN], 10);
         }
-        // measured: 147 943 178 schedules / 10 721 520 orders
-        v.push((Cfg { guards: 4, pre_dropped: 0, rewait: false, mask: MIN }, 12, None));
         // measured: 64 424 571 schedules, the same 46 368 orders as MIN (checked again here)
         v.push((Cfg { guards: 3, pre_dropped: 0, rewait: false, mask: FULL }, 12, Some(GROUP_G3)));
+        // measured: 147 943 178 schedules / 10 721 520 orders
+        v.push((Cfg { guards: 4, pre_dropped: 0, rewait: false, mask: MIN }, 12, None));
     }
     v
 }
@@ -984,7 +984,7 @@ fn main() {
 
 fn spec() -> Spec<'static> {
     Spec {
-        rule: "Part 1 (E5): for each configuration (G guards created before the wait, p of them dropped on the waiter's thread before the wait, optional 'rewait' variant = a first wait polled once and cancelled, one more guard created and handed to a thread, second wait; hook-point set) EVERY schedule of {waiter, one thread per remaining guard} over the scheduling points {thread start/end, join, block on a pending future, every enabled sched_point label} is executed on the real Counter (depth-first search over scheduler choices, no preemption bound, partitioned by choice prefix over all cores; schedule counts cross-checked against shuttle's own DfsScheduler up to 3*10^5). Point sets: full = one point before every shared-memory step (take, notify_waiters, notified(), strong_count, poll of notified, re-arm); min = full minus guard:before-take (which directly follows the thread-start scheduling point); all = all 8 labels. Within a group (same G, p, variant) all point sets must reach the identical set of orders of shared-memory steps, else machinery error. quick: G<=2 x p<=G {full,min} (+all for p=0), rewait G<=1 {full,min}, G=3 p in {1,2} {full,min}, G=3 p=0 min, rewait G=2 min; thorough adds G=4 p in {1,2,3} min, G=4 p=0 min (147.9M schedules) and G=3 p=0 full (64.4M schedules, compared with min). One schedule = one state, one scheduler decision = one transition; distinct by construction (the DFS never repeats a choice vector); non-trivial = schedules in which the waiter actually blocked at least once. Part 2 (E3): real RedbStore (in-memory backend), 1..2 cancelled reads whose spawn_blocking tasks are parked inside CounterGuard::drop; every order of {close, take_i, notify_i} (take_i before notify_i; 3 + 30 orders), oracle after every event.",
+        rule: "Part 1 (E5): for each configuration (G guards created before the wait, p of them dropped on the waiter's thread before the wait, optional 'rewait' variant = a first wait polled once and cancelled, one more guard created and handed to a thread, second wait; hook-point set) EVERY schedule of {waiter, one thread per remaining guard} over the scheduling points {thread start/end, join, block on a pending future, every enabled sched_point label} is executed on the real Counter (depth-first search over scheduler choices, no preemption bound, partitioned by choice prefix over all cores; schedule counts cross-checked against shuttle's own DfsScheduler up to 3*10^5). Point sets: full = one point before every shared-memory step (take, notify_waiters, notified(), strong_count, poll of notified, re-arm); min = full minus guard:before-take (which directly follows the thread-start scheduling point); all = all 8 labels. Within a group (same G, p, variant) all point sets must reach the identical set of orders of shared-memory steps, else machinery error. quick: G<=2 x p<=G {full,min} (+all for p=0), rewait G<=1 {full,min}, G=3 p in {1,2} {full,min}, G=3 p=0 min, rewait G=2 min; thorough adds G=4 p in {1,2,3} min, G=3 p=0 full (64.4M schedules, compared with min) and G=4 p=0 min (147.9M schedules). One schedule = one state, one scheduler decision = one transition; distinct by construction (the DFS never repeats a choice vector); non-trivial = schedules in which the waiter actually blocked at least once. Part 2 (E3): real RedbStore (in-memory backend), 1..2 cancelled reads whose spawn_blocking tasks are parked inside CounterGuard::drop; every order of {close, take_i, notify_i} (take_i before notify_i; 3 + 30 orders), oracle after every event.",
         assumptions: &[
             "tokio::sync::Notify and Arc operations are atomic at the granularity of the hook points (tokio model-checks Notify with loom upstream)",
             "scheduling points exist only where the hooks are: between the statements of CounterGuard::drop and Counter::wait_guards, not inside Notify",
